@@ -5,10 +5,11 @@ HERE = os.path.dirname(os.path.dirname(os.path.abspath(__file__)))
 sys.path.insert(0, HERE)
 props = [json.loads(l) for l in open(os.path.join(HERE, "properties.jsonl")) if l.strip()]
 checks, na = [], []
+CLAIMED = set(open(os.path.join(HERE, "CLAIMED")).read().split())
 for p in props:
     pid = p["id"]
     path = os.path.join(HERE, "props", pid.lower() + ".py")
-    if not os.path.exists(path):
+    if not os.path.exists(path) or pid not in CLAIMED:
         na.append({"property_id": pid, "reason": "not claimed yet: monitor designed in DESIGN.md section 5 but not built/validated in this round"})
         continue
     mod = importlib.import_module("props." + pid.lower())
